@@ -24,8 +24,10 @@ func ExtractTypeInfo(t types.Type) *TypeInfo {
 	}
 
 	// Remove pointer if present
+	// Identity, not spelling: look through aliases before and after removing the pointer
+	t = types.Unalias(t)
 	if ptr, ok := t.(*types.Pointer); ok {
-		t = ptr.Elem()
+		t = types.Unalias(ptr.Elem())
 	}
 
 	// Get named type
@@ -54,8 +56,10 @@ func ExtractTypeName(t types.Type) string {
 	}
 
 	// Remove pointer if present
+	// Identity, not spelling: look through aliases before and after removing the pointer
+	t = types.Unalias(t)
 	if ptr, ok := t.(*types.Pointer); ok {
-		t = ptr.Elem()
+		t = types.Unalias(ptr.Elem())
 	}
 
 	// Get named type
